@@ -190,6 +190,8 @@ POISON = [
 
 def run(ctx):
     import gtirb
+    from .. import codecmon
+    codecmon.private_serialization(gtirb, ctx)
 
     def one(case):
         rnd = case.rnd
@@ -312,6 +314,11 @@ def run(ctx):
                             model = ("map", model[1] + [
                                 (refcodec.neutral(kk, tt[1][0]),
                                  refcodec.neutral(vv, tt[1][1]))])
+                        elif auxgen.mutate_nested(rnd, v, tt, pool):
+                            # a container somewhere inside a tuple / variant
+                            # edited in place
+                            ctx.count("nested_in_place_edits")
+                            model = refcodec.neutral(v, tt)
                         else:  # immutable value: replace it
                             nv = auxgen.gen_value(rnd, tt, pool)
                             ad.data = nv
